@@ -18,11 +18,28 @@ _ctx = {}
 
 
 def ctx(platform):
+    """platform data through the translator's extractors; an extractor that cannot translate has already been reported by
+    translate() as a broken obligation — fall back to something usable so that the real code still runs through the oracle"""
     from gen import privgen
     if platform not in _ctx:
-        spec = privgen.abort_spec(platform)
-        _ctx[platform] = dict(rows=privgen.table(platform), default=privgen.default_level(platform), abort=spec,
-                              sess=privgen.session_template(platform), marker=spec[1] if spec[0] == "ifSession" else None)
+        try:
+            spec = privgen.abort_spec(platform)
+        except Exception:  # noqa: BLE001
+            spec = ("none",)
+        marker = spec[1] if spec[0] == "ifSession" else privgen.SESSION_MARKER_DEFAULT
+        try:
+            rows = privgen.table(platform)
+        except Exception:  # noqa: BLE001
+            rows = privgen.level_rows(privgen._construct(privgen._drivers(platform)[0], False).privilege_levels, marker)
+        try:
+            default = privgen.default_level(platform)
+        except Exception:  # noqa: BLE001
+            default = privgen._construct(privgen._drivers(platform)[0], False).default_desired_privilege_level
+        try:
+            sess = privgen.session_template(platform)
+        except Exception:  # noqa: BLE001
+            sess = None
+        _ctx[platform] = dict(rows=rows, default=default, abort=spec, sess=sess, marker=marker)
     return _ctx[platform]
 
 
